@@ -50,11 +50,16 @@ func main() {
 		os.Exit(3)
 	}
 	debug.SetMaxStack(256 << 20)
+	if core.FakeTime {
+		// the collector's pacing reads the clock, which stands still while code runs under the virtual
+		// clock: a collection cycle never finishes. The virtual-clock build runs one small job only.
+		debug.SetGCPercent(-1)
+	}
 	c := core.NewCtx(*prop, *tier, *seed, *shard, *nshards, *out)
 	if kp := os.Getenv("VERIF_KNOWN"); kp != "" {
 		c.LoadKnown(kp)
 	}
-	if *prop != "C18" {
+	if *prop != "C18" && os.Getenv("VERIF_NOLOCK") == "" {
 		// one monitor goroutine, pinned to its thread: per-call CPU accounting (see core.Call)
 		runtime.LockOSThread()
 		c.CPUGuard = true
